@@ -391,6 +391,46 @@ def style_ctor_kwargs(style):
     return out
 
 
+def style_override_dict(skw):
+    """the dictionary that copy(**skw) / Class(**skw) must apply to the style, computed WITHOUT
+    BaseGeo._process_style_kwargs: a copy of the style= dictionary (if given), updated with every
+    style_xxx keyword stripped of its prefix; None values are values like any other"""
+    d = dict(skw["style"]) if isinstance(skw.get("style"), dict) else {}
+    d.update({k[6:]: v for k, v in skw.items() if k.startswith("style_")})
+    return d
+
+
+def flat_leaves(d, prefix=""):
+    """nested style dict -> {magic_underscore_leaf: value} (lists, e.g. model3d data, are leaves)"""
+    out = {}
+    for k, v in d.items():
+        if isinstance(v, dict):
+            out.update(flat_leaves(v, prefix + k + "_"))
+        else:
+            out[prefix + k] = v
+    return out
+
+
+def nest(flat):
+    out = {}
+    for k, v in flat.items():
+        parts, d = k.split("_"), out
+        for q_ in parts[:-1]:
+            d = d.setdefault(q_, {})
+        d[parts[-1]] = v
+    return out
+
+
+def alt_notation(skw):
+    """the same style overrides in the other notation: style={nested dict} <-> style_a_b_c=.. keywords"""
+    leaves = flat_leaves(style_override_dict(skw))
+    if not leaves or any(isinstance(v, list) for v in leaves.values()):
+        return None
+    if "style" in skw:                       # -> keywords only
+        return {"style_" + k: v for k, v in leaves.items()}
+    return {"style": nest(leaves)}           # -> one nested dictionary
+
+
 def build_trace(spec):
     """JSON trace specification -> keyword arguments of Trace3d / add_trace ("np": arrays inside)"""
     as_np = spec.get("np")
@@ -814,7 +854,7 @@ class World:
                 kws += [f"KwAttr {j} {t}" for j, t in rebound]
             skw = style_ctor_kwargs(kw)
             if skw:
-                d = type(x)._process_style_kwargs(**deepcopy(skw))
+                d = style_override_dict(deepcopy(skw))
                 eff = eff_style_dict(x)
                 senc, _ = scratch_style_after(type(x), eff, [lambda s: s.update(deepcopy(d))])
                 if any(key != "label" for key in d):
@@ -1210,15 +1250,20 @@ def gen_style(rng, clsname, allow_trace=False):
         kw["label"] = rng.choice(["a", "b", "c", "a_01", "b_07", "col", clsname, clsname + "_02"])
         if allow_trace and rng.random() < 0.3:      # search only: labels the model's encoding does not cover
             kw["label"] = rng.choice(["x9", "col1", "a_", "7", "a__", "a09", "a_1", "_", "b 2", "99"])
-    x = rng.random()
-    if x < 0.35:
-        kw["color"] = rng.choice(["red", "blue", "#00ff00"])
-    elif x < 0.55:
-        kw["opacity"] = rng.choice([0.5, 0.25])
-    elif x < 0.7:
-        kw["description_text"] = rng.choice(["dd", "ee"])
-    elif x < 0.8:
-        kw["path_show"] = False
+    for _ in range(rng.choice([1, 1, 2, 3])):
+        x = rng.random()
+        if x < 0.3:
+            kw["color"] = rng.choice(["red", "blue", "#00ff00"])
+        elif x < 0.5:
+            kw["opacity"] = rng.choice([0.5, 0.25])
+        elif x < 0.62:
+            kw["description_text"] = rng.choice(["dd", "ee"])
+        elif x < 0.7:
+            kw["path_show"] = False
+        elif x < 0.8:
+            kw["path_line_width"] = rng.choice([2, 3])
+        elif x < 0.88:
+            kw["path_line_color"] = rng.choice(["red", "green"])
     if rng.random() < 0.3:
         d = rng.choice([{"description": {"text": "ff", "show": False}}, {"opacity": 0.75},
                         {"path": {"line": {"width": 3}}, "color": "green"}, {"label": "d"}])
@@ -1380,12 +1425,19 @@ def gen_mut(rng, obj, clsname, corr):
     return {"k": "touch"}
 
 
+STYLE_LEAVES = {"color": ["red", "blue", "yellow"], "opacity": [0.5, 0.25, 0.625], "path_line_width": [2, 4],
+                "path_line_color": ["red", "blue"], "description_text": ["cc", "dd"], "path_show": [True, False],
+                "legend_text": ["lg"], "path_marker_size": [3]}
+
+
 def gen_copy_kw(rng, w, xi, corr):
     if rng.random() < 0.4:
         return {}
     x = w.objs[xi]
     clsname = type(x).__name__
     kw = {"attrs": [], "kw": {}, "dict": None, "traces": None}
+    eff = eff_style_dict(x)
+    set_leaves = sorted(k for k, v in flat_leaves(eff or {}).items() if v is not None and k in STYLE_LEAVES)
     only_style = corr and w.kinds[xi] == "coll" and x._children
     for _ in range(rng.choice([1, 1, 2, 3])):
         r = rng.random()
@@ -1407,17 +1459,23 @@ def gen_copy_kw(rng, w, xi, corr):
                 elif name == "position" and not isinstance(val[0], list) and rng.random() < 0.15:
                     val = [val]                                        # single-element path, shape (1,3)
                 kw["attrs"].append([name, val])
-        elif r < 0.65:
-            kw["kw"]["label"] = rng.choice(["a", "b", "c", "b_04", clsname])
+        elif r < 0.62:
+            kw["kw"]["label"] = rng.choice(["a", "b", "c", "b_04", clsname, None])
         elif r < 0.85:
-            kw["kw"][rng.choice(["color", "opacity"])] = None
-            for key in list(kw["kw"]):
-                if kw["kw"][key] is None:
-                    kw["kw"][key] = rng.choice(["red", "blue"]) if key == "color" else rng.choice([0.5, 0.25])
+            # style_xxx keyword; None is a value like any other (preferably where the original has a value)
+            leaf = rng.choice(set_leaves) if set_leaves and rng.random() < 0.7 else rng.choice(sorted(STYLE_LEAVES))
+            if leaf not in flat_leaves(kw["dict"] or {}):
+                kw["kw"][leaf] = None if rng.random() < 0.45 else rng.choice(STYLE_LEAVES[leaf])
         else:
-            kw["dict"] = rng.choice([{"description": {"text": "cc"}}, {"label": "d", "opacity": 0.625},
-                                     {"color": "yellow"}])
-            if rng.random() < 0.3:
+            d = {}
+            for _ in range(rng.choice([1, 1, 2])):
+                leaf = rng.choice(set_leaves) if set_leaves and rng.random() < 0.7 else rng.choice(sorted(STYLE_LEAVES))
+                if leaf not in kw["kw"]:
+                    d[leaf] = None if rng.random() < 0.45 else rng.choice(STYLE_LEAVES[leaf])
+            if rng.random() < 0.25 and "label" not in kw["kw"]:
+                d["label"] = "d"
+            kw["dict"] = nest(d) if d else {"description": {"text": "cc"}}
+            if rng.random() < 0.2:
                 kw["traces"] = [gen_trace(rng)]
     if not corr and rng.random() < 0.08:
         colls = [i for i in w.live() if w.kinds[i] == "coll"]
@@ -1503,7 +1561,7 @@ def gen_op(rng, w, corr, max_rows=12):
     if x < 0.52 and len(w.objs) <= max_rows:
         xi = rng.choice(live)
         return {"op": "copy", "x": xi, "kw": gen_copy_kw(rng, w, xi, corr)}
-    if x < 0.55:
+    if 0.52 <= x < 0.55:
         return {"op": "copy", "x": rng.choice(live), "bad": rng.choice(sorted(BAD_KW))}
     if x < 0.57 and not corr:
         return {"op": "defaults", "how": rng.choice(["update", "update", "reset"])}
@@ -1954,11 +2012,43 @@ def _run_scenario(ops, stats=None):
                 raise Fail("label", cls, "child", f"label of the copy of child {i} is {lab_y!r}, original {lab_x!r}")
             continue
         skw = style_ctor_kwargs(kw)
-        dct = type(x)._process_style_kwargs(**deepcopy(skw)) if skw else {}
+        dct = style_override_dict(deepcopy(skw)) if skw else {}
         if dct:
+            # leaf by leaf: what a keyword names has exactly the given value (None included), every
+            # other leaf is the original's
+            given = {k: v for k, v in flat_leaves(dct).items() if k not in ("label", "model3d_data")}
+            fy = flat_leaves(eff_style_dict(oy) or type(x)._style_class().as_dict())
+            fx = flat_leaves(eff_x0 if eff_x0 is not None else type(x)._style_class().as_dict())
+            if not kw.get("traces") and "model3d" not in dct and len(flat_leaves(dct)) == len(
+                    flat_leaves(skw.get("style") or {})) + sum(1 for k in skw if k.startswith("style_")):
+                for leaf, v in given.items():
+                    if leaf in fy and enc(fy[leaf]) != enc(v):
+                        raise Fail("override", cls, f"style_{leaf}" + ("=None" if v is None else ""),
+                                   f"copy(.. {leaf}={v!r} ..): the copy's style has {leaf}={fy[leaf]!r} "
+                                   f"(original: {fx.get(leaf)!r})")
+                for leaf in fy:
+                    if leaf not in given and leaf not in ("label", "model3d_data") and enc(fy[leaf]) != enc(fx.get(leaf)):
+                        raise Fail("override", cls, "style-other-leaf",
+                                   f"copy with style overrides {sorted(given)} changed {leaf}: {fx.get(leaf)!r} -> {fy[leaf]!r}")
             exp, _ = scratch_style_after(type(x), eff_x0, [lambda s: s.update(deepcopy(dct))])
             if senc_y != exp:
                 raise Fail("override", cls, "style", f"style of the copy is not the original's style updated by {dct}")
+            # the other notation (all nested <-> all magic-underscore keywords) gives the same copy
+            if not kw.get("traces") and "model3d" not in dct:
+                alt = alt_notation(skw)
+                if alt is not None:
+                    try:
+                        with warnings.catch_warnings():
+                            warnings.simplefilter("ignore")
+                            y_alt = x.copy(**w.copy_kwargs({"attrs": kw.get("attrs", [])}, x), **alt)
+                        if style_obs(y_alt) != (senc_y, lab_y):
+                            raise Fail("override", cls, "style-notation",
+                                       f"copy(**{skw}) and copy(**{alt}) give different styles")
+                    except Fail:
+                        raise
+                    except Exception as e:      # pylint: disable=broad-except
+                        raise Fail("override", cls, "style-notation",
+                                   f"copy(**{alt}) raises {type(e).__name__} although copy(**{skw}) works") from e
         elif senc_y != senc_x:
             raise Fail("equal_values", cls, "style", "style values of the copy differ from the original's")
         if "label" in dct:
@@ -2255,6 +2345,19 @@ def fixed_battery():
     B.append(("style-traces", [N("Cuboid", sm=2, style={"kw": {"label": "cube", "color": "blue"}, "dict": None, "traces": tr}), C(0),
                                M(1, k="trace", idx=0, what="kwx")]))
     B.append(("style-traces-original", [N("Sensor", sm=1, style={"kw": {}, "dict": None, "traces": tr}), M(0, k="touch"), C(0), M(0, k="trace", idx=0, what="scale")]))
+    # None-valued style overrides, both notations, on initialised and lazy styles
+    full = {"color": "blue", "opacity": 0.5, "path_line_width": 3, "path_line_color": "red", "description_text": "dd"}
+    for sname, sm, sty in (("pending-kw", 1, {"kw": dict(full, label="q"), "dict": None}),
+                           ("pending-dict", 1, {"kw": {}, "dict": nest(full)}),
+                           ("initialised", 2, {"kw": dict(full), "dict": None})):
+        for oname, okw, odct in (("kw-color", {"color": None}, None),
+                                 ("kw-two", {"opacity": None, "path_line_width": None}, None),
+                                 ("dict", None, {"color": None, "path": {"line": {"width": None}}}),
+                                 ("mixed", {"color": None, "opacity": 0.25}, {"path": {"line": {"color": None, "width": 5}}}),
+                                 ("kw-label-none", {"label": None, "description_text": None}, None)):
+            for cls in ("Cuboid", "Sensor", "Collection"):
+                B.append((f"style-none:{sname}:{oname}:{cls}", [N(cls, sm=sm, style=sty), C(0, kw=okw, dct=odct)]))
+        B.append((f"style-none-child:{sname}", [N("Collection"), N("Circle", sm=sm, style=sty), ADD(0, 1), C(1, kw={"color": None, "path_line_color": None})]))
     # (i) aliasing
     for cls in ("Cuboid", "Circle", "Dipole", "Sensor"):
         B.append((f"alias-position:{cls}", [N(cls, position=PATH6), C(0, attrs=[["position", ali]]), M(1, k="move", disp=[0, 0, 1])]))
@@ -2551,12 +2654,87 @@ def label_model_check(ctx, pairs, chunk=500):
     return bad
 
 
+# ------------------------------------------------------------------ kwargs (BaseGeo._process_style_kwargs)
+KW_LEAVES = ["color", "opacity", "path_line_width", "path_line_color", "description_text", "label", "path_show",
+             "legend_text"]
+KW_VALUES = ["red", "blue", 0.5, 0.25, 3, True, False, "txt", 0, ""]
+
+
+def gen_kw_case(rng):
+    """(style dict or None, [(leaf, value) ...] in keyword order); flat magic-underscore leaf names"""
+    style = None
+    if rng.random() < 0.6:
+        style = {leaf: (None if rng.random() < 0.3 else rng.choice(KW_VALUES))
+                 for leaf in rng.sample(KW_LEAVES, rng.randint(0, 4))}
+    kws = []
+    if rng.random() < 0.85:
+        pool = list(KW_LEAVES)
+        if style and rng.random() < 0.6:               # the same leaf in the dictionary and as a keyword
+            pool = list(style) + pool
+        seen = set()
+        for leaf in pool[:rng.randint(1, 4)] if rng.random() < 0.5 else rng.sample(KW_LEAVES, rng.randint(1, 4)):
+            if leaf not in seen:
+                seen.add(leaf)
+                kws.append((leaf, None if rng.random() < 0.4 else rng.choice(KW_VALUES)))
+    return style, kws
+
+
+def kwargs_stage(ctx, n):
+    from magpylib._src.obj_classes.class_BaseGeo import BaseGeo
+    tok = {}
+
+    def pv(v):
+        return "None" if v is None else f"(Some {tok.setdefault(repr(v), len(tok) + 1)})"
+
+    def cdict(d):
+        return "[" + "; ".join(f"({KW_LEAVES.index(k)}, {pv(v)})" for k, v in d) + "]"
+    fixed = [(None, []), ({}, []), ({"color": "red"}, []), (None, [("color", None)]), ({"color": "red"}, [("color", None)]),
+             ({"color": None}, [("color", "red")]), ({"opacity": 0.5}, [("color", None), ("opacity", None)]),
+             (None, [("path_line_width", None), ("color", "blue")])]
+    cases, texts, mutated = [], [], []
+    for t in range(n):
+        style, kws = fixed[t] if t < len(fixed) else gen_kw_case(ctx.rng)
+        arg = None if style is None else dict(style)
+        ret = BaseGeo._process_style_kwargs(style=arg, **{"style_" + k: v for k, v in kws})
+        if arg is not None and arg != style:
+            mutated.append((style, kws, arg))
+        if ret is None:
+            exp = "None"
+        else:
+            if not isinstance(ret, dict) or any(k not in KW_LEAVES for k in ret):
+                raise RuntimeError(f"_process_style_kwargs(style={style}, {kws}) returned {ret!r}")
+            exp = "(Some [" + "; ".join(("None" if k not in ret else f"(Some {pv(ret[k])})") for k in KW_LEAVES) + "])"
+        cases.append((style, kws, ret))
+        texts.append(f"({'None' if style is None else '(Some ' + cdict(style.items()) + ')'}, {cdict(kws)}, {exp})")
+        ctx.case("kwargs:" + repr((style, kws)), True)
+        ctx.bump("kwargs:" + ("no-keywords" if not kws else "with-None" if any(v is None for _, v in kws) else "plain"))
+    txt = ("From Coq Require Import List Arith.\nImport ListNotations.\nFrom MV Require Import Model.KwModel.\n"
+           "Eval vm_compute in (kw_failing 0 [\n " + ";\n ".join(texts) + "]).\n")
+    ok, out = ctx.coq_eval(f"c18_{ctx.tier}_kwargs", txt)
+    m = re.search(r"=\s*\[([\d;\s]*)\]\s*:\s*list nat", out) if ok else None
+    if m is None:
+        ctx.add_broken("broken-correspondence", f"c18_{ctx.tier}_kwargs", "model evaluation failed:\n" + out[-1500:])
+        return
+    bad = [int(z) for z in m.group(1).split(";") if z.strip()]
+    ctx.count("traces_validated_against_impl", len(cases) - len(bad))
+    ctx.log(f"kwargs: model and implementation differ on {len(bad)} of {len(cases)} calls of _process_style_kwargs")
+    if bad:
+        style, kws, ret = cases[bad[0]]
+        ctx.add_broken("broken-correspondence", "KwModel vs BaseGeo._process_style_kwargs",
+                       f"{len(bad)} of {len(cases)} calls differ; first: _process_style_kwargs(style={style!r}, "
+                       + ", ".join(f"style_{k}={v!r}" for k, v in kws) + f") returned {ret!r}")
+    if mutated:
+        style, kws, arg = mutated[0]
+        ctx.add_broken("broken-correspondence", "BaseGeo._process_style_kwargs mutates the caller's dictionary",
+                       f"{len(mutated)} calls; first: style={style!r}, keywords {kws} -> the argument became {arg!r}")
+
+
 # ------------------------------------------------------------------ main
 def ensure_model_built(ctx):
     """while Props/C18.v does not exist: compile the executable model only"""
     with Lock():
         ensure_makefile()
-        rc, out = sh("make Model/CopyExec.vo Model/LabelModel.vo", 600, cwd=COQ)
+        rc, out = sh("make Model/CopyExec.vo Model/LabelModel.vo Model/KwModel.vo", 600, cwd=COQ)
     if rc != 0:
         ctx.add_broken("broken-proof", "Model/CopyExec.v", out[-2000:])
         return False
@@ -2697,6 +2875,8 @@ def run(ctx):
                            + repr([pairs[i] for i in bad[1:6]]))
 
     run_guarded(ctx, labels, "C18 labels")
+    if model_ok:
+        run_guarded(ctx, lambda: kwargs_stage(ctx, ctx.n(200, 2000)), "C18 kwargs")
 
     def search():
         big = bool(ctx.broken)
